@@ -13,7 +13,7 @@ REPO = '/repo'
 FILES = {
     'transitions/core.py': ['C01', 'C04', 'C05', 'C09', 'C10', 'C11', 'C12', 'C13', 'C18'],
     'transitions/extensions/nesting.py': ['C02', 'C03', 'C04', 'C05', 'C11', 'C12', 'C13', 'C18', 'C09'],
-    'transitions/extensions/asyncio.py': ['C07', 'C08', 'C09', 'C12', 'C17', 'C02', 'C03', 'C04', 'C18'],
+    'transitions/extensions/asyncio.py': ['C07', 'C08', 'C09', 'C12', 'C17', 'C16', 'C02', 'C03', 'C04', 'C18', 'C05', 'C01'],
     'transitions/extensions/locking.py': ['C06', 'C09', 'C10', 'C15', 'C04'],
     'transitions/extensions/markup.py': ['C14', 'C16', 'C13'],
     'transitions/extensions/diagrams.py': ['C16', 'C10', 'C15', 'C09'],
